@@ -117,7 +117,8 @@ package lite
 // ends the search with that route, that pattern and the groups the match captured; no match returns no route.
 //@ func FindRouteWithGroups
 //@   props C29
-//@   loop 1: invariant rangeindex >= -1 && rangeindex < len(routes)
+//@   loop 1: invariant rangeindex >= -1 && rangeindex < len(routes) && (called(m) ==> !res(m, 0))
+//@   loop 2: invariant called(m) ==> !res(m, 0)
 //@   at-call matchWithGroups as m: assert [host-against-each-pattern-in-order] streq(arg0, pattern) && streq(arg1, host)
 //@   ensures [first-match-wins] route != nil ==> called(m) && res(m, 0) && streq(host, arg(m, 1)) && ref(groups) == ref(res(m, 1)) && len(groups) == len(res(m, 1))
 
@@ -139,7 +140,7 @@ package lite
 //@   props C29
 //@   at-call QuoteMeta as q: assert streq(arg0, pattern)
 //@   at-call ReplaceAll#1 as one: assert [question-mark-is-one-character] streq(arg0, res(q)) && streq(arg1, "\\?") && streq(arg2, "(.)")
-//@   at-call ReplaceAll#2 as many: assert [star-is-any-sequence-anchored-dot-matches-all] streq(arg1, "\\*") && streq(arg2, "(.*?)")
+//@   at-call ReplaceAll#2 as many: assert [star-is-any-sequence-anchored-dot-matches-all] called(one) && streq(arg0, "(?s)^" + res(one) + "$") && streq(arg1, "\\*") && streq(arg2, "(.*?)")
 //@   at-call Compile as cmp: assert called(one) && called(many) && streq(arg0, res(many))
 //@   at-call Set as put: assert [cached-under-the-unmodified-pattern] streq(arg1, pattern) && arg2 == res(cmp, 0)
 
